@@ -1,6 +1,6 @@
 #!/bin/bash
 # runs the registered quick check of each seed's own property against the seed (scratch copy), logs to /tmp/seed_out/<prop>/detect<n>.log
-for d in /tmp/seed_out/C*; do
+for d in ${SEEDS:-/tmp/seed_out/C*}; do
   p=$(basename $d)
   for n in 1 2 3; do
     f=$d/change$n.diff; [ $n = 3 ] && f=$d/extra_change3.diff
